@@ -232,6 +232,28 @@ def local_uses(fn, local):
     return out
 
 
+def ref_target(fn, local, depth=0):
+    """The place a reference-typed local points to when it is defined once as `&[mut] P` (through moves and
+    reborrows `&mut *r`), else None."""
+    if depth > 8:
+        return None
+    # writes through the reference (`*r = ..`) do not re-point it
+    ds = [d for d in fn.defs(local) if not (d[0] == "partial" and d[3].get("k") == "assign" and d[3]["place"]["proj"][0]["k"] == "deref")]
+    if len(ds) != 1 or ds[0][0] != "assign":
+        return None
+    rv = ds[0][3]
+    if rv["k"] == "use" and rv["op"].get("k") in ("move", "copy") and not rv["op"]["place"]["proj"]:
+        return ref_target(fn, rv["op"]["place"]["local"], depth + 1)
+    if rv["k"] == "ref":
+        tp = rv["place"]
+        if not tp["proj"]:
+            return tp
+        if len(tp["proj"]) == 1 and tp["proj"][0]["k"] == "deref":
+            return ref_target(fn, tp["local"], depth + 1)
+        return tp
+    return None
+
+
 def flows_to_place(fn, local, target_str, depth=0, seen=None):
     """Does the value of `local` flow (through assignments and arithmetic) into the
     place named target_str?"""
@@ -244,6 +266,15 @@ def flows_to_place(fn, local, target_str, depth=0, seen=None):
             ps = fn.place_str(s["place"])
             if ps == target_str:
                 return True
+            pj = s["place"]["proj"]
+            if pj and pj[0]["k"] == "deref":
+                # `*r op= x` with `r = &mut target` (an accumulator handed to a helper by reference)
+                tp = ref_target(fn, s["place"]["local"]) if len(pj) == 1 else None
+                if tp is not None:
+                    if fn.place_str(tp) == target_str:
+                        return True
+                    if not tp["proj"] and flows_to_place(fn, tp["local"], target_str, depth + 1, seen):
+                        return True
             if not s["place"]["proj"] and flows_to_place(fn, s["place"]["local"], target_str, depth + 1, seen):
                 return True
         elif kind == "call":
